@@ -112,6 +112,21 @@ def main():
                        'counterexamples are re-enacted on a real temp directory (real models, writers, locks; crash '
                        'injected at the same operation count) before being reported']
     run_obligations(run, obs, confirm=confirm, key_of=key_of)
+    # conformance of the in-memory FS / token model with the real directory and real writers
+    from xhair import replay_call
+    nconform = 0
+    for call in ['crash_workload(3, 1, 2, True, False, True)', 'crash_workload(5, 1, 2, True, False, True)',
+                 'crash_workload(8, 1, 1, False, True, False)', 'crash_workload(11, 2, 3, True, True, True)',
+                 'crash_workload(17, 1, 2, True, False, False)', 'crash_workload(30, 3, 1, False, False, True)']:
+        ob = Ob(f'conformance:{call}', 'C16_db.py', 'crash_workload', env=dict(VH_KMAX=kmax))
+        mrep = replay_call(ob, call)
+        real = confirm(ob, call, mrep)
+        if mrep.get('ok') is True and real.get('ok') is True:
+            nconform += 1
+            run.add(ob.name, 'witness-ok', 0, dict(model=mrep, real=real))
+        else:
+            run.add(ob.name, 'error', 0, dict(model=mrep, real=real))
+            run.harness_error(f'file-system model and real directory disagree on {call}: model={mrep} real={real}')
     ndis = sum(1 for o in run.obligations if o['verdict'] == 'discharged')
     for o in obs[:4]:
         run.sample(dict(obligation=o.name, func=o.func, env=o.env))
@@ -119,8 +134,10 @@ def main():
     run.finish(coverage=dict(states=30 * 9 * 8, transitions=ndis,
                              states_note='crash points x (a,b) x sharing/order flags in the symbolic input space of '
                                          'crash_workload; transitions = obligations discharged over all paths',
-                             traces_validated_against_impl=sum(1 for o in run.obligations
-                                                               if 'real' in json.dumps(o.get('detail', ''), default=str)),
+                             traces_validated_against_impl=nconform,
+                             traces_note='crash workloads executed over the model FS AND on a real temp directory with '
+                                         'real models/writers/locks and the crash injected at the same operation '
+                                         'count; verdicts agree',
                              checker_cmd='crosshair check --report_all harness/C16_*.py:LINE'))
 
 
